@@ -15,7 +15,7 @@ def check(ctx, rep):
         return
     A.rule_emit(m, rep, 'R1')
     A.rule_one_consumer(m, rep, 'R2')
-    A.rule_loop(m, rep, 'R3')
+    A.rule_loop(m, rep, 'R3', liveness=True)
     A.rule_task_closure(m, rep, 'R4')
     B.rule_handle_drop(m, rep, 'R5')
     A.rule_same_channel(m, rep, 'R6')
